@@ -9,7 +9,13 @@
    now - la p = time since the last attempt.  Histories (`acts`) are arbitrary sequences of
    "the decider reports changes" (AEnq), "one iteration of the outgoing loop with arbitrary clock readings,
    arbitrary send outcomes per peer and an arbitrary snapshot" (AIter) and "the incoming thread handled a
-   message from a peer" (AIn); `log_of` is the list of send attempts and handled RESETs, oldest first. *)
+   message from a peer" (AIn); `log_of_o` is the list of send attempts and handled RESETs, oldest first.
+
+   The property does not say when inside an iteration the queued change is taken, so the iteration is a family
+   indexed by `pop_first`: false = the pinned commit (taken at the first SYNC, left queued when no SYNC goes
+   out), true = the repaired order of the D9 fix (taken once at the start of the iteration, inside the locked
+   decision, whether or not a SYNC goes out).  Every theorem about histories or iterations holds for BOTH
+   orders; the correspondence infers which one the code uses and compares against that member. *)
 From Bobo Require Import Base.Prelude Model.Outgoing Proofs.OutgoingProofs.
 
 (* ---- mode_table: towards each peer the next message is determined by the time since the last successful
@@ -39,8 +45,8 @@ Print Assumptions C15_mode_table.
    anywhere), if a1 and a2 are consecutive attempts to one peer with no RESET from that peer handled in
    between, then a2 was decided at least its type's interval after a1 finished (exactly: the threshold
    test of the convention passed on that gap) -- unless a2 is a SYNC chosen while the queue was non-empty. *)
-Theorem C15_retry_spacing : forall c s acts l1 a1 l2 a2 l3,
-  log_of c s acts = l1 ++ EAtt a1 :: l2 ++ EAtt a2 :: l3 ->
+Theorem C15_retry_spacing : forall pop_first c s acts l1 a1 l2 a2 l3,
+  log_of_o pop_first c s acts = l1 ++ EAtt a1 :: l2 ++ EAtt a2 :: l3 ->
   at_peer a1 = at_peer a2 ->
   (forall e, In e l2 -> ev_peer e <> at_peer a2) ->
   let gap := at_dec a2 - at_done a1 in
@@ -54,8 +60,8 @@ Print Assumptions C15_retry_spacing.
 
 (* the same in seconds, convention-free; with a clock that did not step back during the earlier send the
    bound also holds from decision to decision *)
-Theorem C15_retry_spacing_seconds : forall c s acts l1 a1 l2 a2 l3,
-  log_of c s acts = l1 ++ EAtt a1 :: l2 ++ EAtt a2 :: l3 ->
+Theorem C15_retry_spacing_seconds : forall pop_first c s acts l1 a1 l2 a2 l3,
+  log_of_o pop_first c s acts = l1 ++ EAtt a1 :: l2 ++ EAtt a2 :: l3 ->
   at_peer a1 = at_peer a2 ->
   (forall e, In e l2 -> ev_peer e <> at_peer a2) ->
   (at_mode a2 = SYNC /\ at_qne a2 = true) \/
@@ -85,13 +91,15 @@ Print Assumptions C15_post_send_effects.
 
 (* ... and one whole iteration applies exactly that bookkeeping to every peer for which a message was
    chosen (with the decision taken on the peer's record at the start of the iteration and the flag read
-   from it), leaves every other peer untouched, and takes the head of the queue iff some peer got a SYNC. *)
-Theorem C15_iteration_effects : forall c now snap sends s,
+   from it) and leaves every other peer untouched; the note that a SYNC carries and a failed SYNC puts on the
+   backlog is the head of the queue (cn) in both orders.  The queue loses exactly that head - in the repaired
+   order whenever it was non-empty, in the pinned order iff some peer got a SYNC - and nothing else. *)
+Theorem C15_iteration_effects : forall pop_first c now snap sends s,
   let qe := is_nil (o_queue s) in
   let cn := hd empty_note (o_queue s) in
-  let s' := fst (iter c now snap sends s) in
+  let s' := fst (iter_o pop_first c now snap sends s) in
   length (o_peers s') = length (o_peers s) /\
-  o_queue s' = (if existsb (wants_sync c now qe) (o_peers s) then tl (o_queue s) else o_queue s) /\
+  o_queue s' = (if pop_first || existsb (wants_sync c now qe) (o_peers s) then tl (o_queue s) else o_queue s) /\
   forall j p, nth_error (o_peers s) j = Some p ->
     nth_error (o_peers s') j =
     Some (match decide c now qe p with
@@ -103,17 +111,17 @@ Print Assumptions C15_iteration_effects.
 
 (* ---- flag_until_delivered: if the restart flag of peer i is set, every message attempted to i carries it
    up to and including the first one that is delivered ... *)
-Theorem C15_flag_until_delivered : forall c s acts i p0 l1 a l2,
+Theorem C15_flag_until_delivered : forall pop_first c s acts i p0 l1 a l2,
   nth_error (o_peers s) i = Some p0 -> fr p0 = true ->
-  log_of c s acts = l1 ++ EAtt a :: l2 -> at_peer a = i ->
+  log_of_o pop_first c s acts = l1 ++ EAtt a :: l2 -> at_peer a = i ->
   (forall b, In (EAtt b) l1 -> at_peer b = i -> at_err b <> 0%nat) ->
   at_flag a = true.
 Proof. exact flag_until_delivered. Qed.
 Print Assumptions C15_flag_until_delivered.
 
 (* ... and no message after a delivered one carries it. *)
-Theorem C15_flag_cleared_by_delivery : forall c s acts l1 b l2 a l3,
-  log_of c s acts = l1 ++ EAtt b :: l2 ++ EAtt a :: l3 ->
+Theorem C15_flag_cleared_by_delivery : forall pop_first c s acts l1 b l2 a l3,
+  log_of_o pop_first c s acts = l1 ++ EAtt b :: l2 ++ EAtt a :: l3 ->
   at_peer b = at_peer a -> at_err b = 0%nat ->
   at_flag a = false.
 Proof. exact flag_cleared_by_delivery. Qed.
@@ -122,8 +130,8 @@ Print Assumptions C15_flag_cleared_by_delivery.
 (* ---- reset_triggers_resync (sequential; the race with a concurrent outgoing iteration is C07): after a
    RESET-flagged message from peer i was handled, the next message chosen for i is a RESYNC -- for every
    clock reading beyond the two resync parameters (any real clock: seconds since 1970) ... *)
-Theorem C15_reset_triggers_resync : forall c s acts i l1 l2 a l3,
-  log_of c s acts = l1 ++ EReset i :: l2 ++ EAtt a :: l3 ->
+Theorem C15_reset_triggers_resync : forall pop_first c s acts i l1 l2 a l3,
+  log_of_o pop_first c s acts = l1 ++ EReset i :: l2 ++ EAtt a :: l3 ->
   at_peer a = i ->
   (forall e, In e l2 -> ev_peer e <> i) ->
   p_resync c < at_dec a -> a_resync c < at_dec a ->
@@ -132,10 +140,11 @@ Proof. exact reset_triggers_resync. Qed.
 Print Assumptions C15_reset_triggers_resync.
 
 (* ... and it is chosen in the very next iteration. *)
-Theorem C15_reset_resync_next_iteration : forall c s from typ flags caddr now snap sends p,
+Theorem C15_reset_resync_next_iteration : forall pop_first c s from typ flags caddr now snap sends p,
   nth_error (o_peers s) from = Some p -> Z.land flags 1 = 1 ->
   p_resync c < now -> a_resync c < now ->
-  exists a, In (EAtt a) (snd (step c (fst (step c s (AIn from typ flags caddr))) (AIter now snap sends))) /\
+  exists a, In (EAtt a) (snd (step_o pop_first c (fst (step_o pop_first c s (AIn from typ flags caddr)))
+                                     (AIter now snap sends))) /\
             at_peer a = from /\ at_mode a = RESYNC.
 Proof. exact reset_resync_next_iteration. Qed.
 Print Assumptions C15_reset_resync_next_iteration.
@@ -158,11 +167,21 @@ Definition ex_view (e : ev) : list Z :=
   | EAtt a => [mode_code (at_mode a); at_dec a; at_done a; b2z (at_flag a); n2z (at_err a)] ++ enc_note (at_pay a)
   | EReset i => [-9; n2z i]
   end.
-Example C15_example :
-  map ex_view (log_of ex_cfg ex_s ex_acts) =
+Example C15_example : forall pop_first,
+  map ex_view (log_of_o pop_first ex_cfg ex_s ex_acts) =
   [ [1; 131; 131; 1; 1; 0; 0; 0]; [1; 136; 136; 1; 0; 0; 0; 0]; [1; 170; 170; 0; 0; 0; 0; 0]; [-9; 0];
     [2; 171; 171; 0; 0; 1; 4; 0; 1; 5]; [0; 172; 172; 0; 2; 0; 0; 1; 9]; [0; 177; 178; 0; 0; 0; 0; 1; 9] ].
-Proof. vm_compute. reflexivity. Qed.
+Proof. intros [|]; vm_compute; reflexivity. Qed.
+
+(* where the two orders differ: changes reported while the only peer is in its resync period.  The RESYNC at
+   1000 goes out either way; in the pinned order the note stays queued and follows as a SYNC at 1001, in the
+   repaired order it was taken at 1000 (the snapshot supersedes it) and nothing is left to send at 1001. *)
+Example C15_example_orders :
+  let acts := [AEnq (mkNote [] [] [9]); AIter 1000 (mkNote [] [] [9]) [(0, 1000)]; AIter 1001 empty_note [(0, 1001)]] in
+  let s := mkO [mkPeer 0 0 false [] [] [] 7] [] in
+  map ex_view (log_of_o false ex_cfg s acts) = [ [2; 1000; 1000; 0; 0; 0; 0; 1; 9]; [0; 1001; 1001; 0; 0; 0; 0; 1; 9] ] /\
+  map ex_view (log_of_o true ex_cfg s acts) = [ [2; 1000; 1000; 0; 0; 0; 0; 1; 9] ].
+Proof. vm_compute. split; reflexivity. Qed.
 
 (* the decision table is inhabited in every cell (strictly inside each period) *)
 Example C15_example_table :
